@@ -48,6 +48,8 @@ def configs(prob, tier):
     out.append({'kkt': None, 'opts': {'abstol': -1.0, 'reltol': 1e-3, 'feastol': 1e-4}})
     out.append({'kkt': 'chol', 'opts': {'abstol': 1e-3, 'reltol': -1.0, 'feastol': 1e-4}, 'none_style': 1})
     out.append({'kkt': None, 'opts': {'maxiters': 3}})
+    # tighter than the global defaults: an entry point that drops its per-call options falls short of these
+    out.append({'kkt': None, 'opts': {'feastol': 1e-9, 'abstol': 1e-9, 'reltol': 1e-9}})
     if d['s']:
         out.append({'kkt': None, 'junk': 55.0})
         out.append({'kkt': 'ldl', 'junk': -7.0, 'storage': 'sparse'})
